@@ -555,11 +555,17 @@ func (ps *PruningStorer) Remove(key []byte) error {
 
 	ps.lock.RLock()
 	defer ps.lock.RUnlock()
+	removed := false
 	for _, pd := range ps.activePersisters {
+		// the key may live in any of the active persisters (it stays in an older one after an
+		// epoch change), so all of them have to be visited
 		err = pd.persister.Remove(key)
 		if err == nil {
-			return nil
+			removed = true
 		}
+	}
+	if removed {
+		return nil
 	}
 
 	return err
